@@ -847,11 +847,58 @@ def replay(ctx, r):
     vu, vi = _imp()
     if r.get("function") == "intersection":
         s, msg, _ = oracle_ix(vi, r)
+    elif "history" in r:
+        f = oracle_history(vu, r["coords"], r["history"], r.get("coords_dtype", "float"))
+        s, msg = (f[1], f[2]) if f else (None, None)
     else:
         s, msg, _ = oracle_dc(vu, r)
     if s:
         print("  ", msg)
     return s is not None
+
+
+# ------------------------------------------------------------------ histories on ONE contour object
+def run_history(vu, coords, requests, dtype="float", contour=None):
+    """several requests, one after the other, on the same contour object"""
+    obj = contour or _Contour(coords, dtype)
+    out = []
+    for rq in requests:
+        out.append(run_dc(vu, {"coords": coords, "swap": rq["swap"], "steps": rq["steps"], "steps_type": rq.get("steps_type", "list"), "contour": obj}))
+    try:
+        after = [[float(x), float(y)] for x, y in np.asarray(obj.coordinates)]
+    except Exception:  # noqa
+        after = None
+    return out, after
+
+
+def oracle_history(vu, coords, requests, dtype="float", contour=None):
+    """every request is judged against the coordinates the contour had when it was created;
+    returns None or (index of the failing request, signature, message)"""
+    snapshot = [[float(x), float(y)] for x, y in coords]
+    res, after = run_history(vu, snapshot, requests, dtype, contour)
+    for j, (rq, r) in enumerate(zip(requests, res)):
+        plain = {"coords": snapshot, "swap": rq["swap"], "steps": rq["steps"], "steps_type": rq.get("steps_type", "list"), "coords_dtype": dtype}
+        s, msg, _ = oracle_dc(vu, plain, r)
+        if s is not None and not s.get("vertex_hit"):
+            return j, dict(s, history=True), "request %d of %d on one contour object (swap_axis=%r, steps=%r): %s" % (j + 1, len(requests), rq["swap"], rq["steps"], msg)
+    if after != snapshot:
+        return len(requests) - 1, {"function": "calculate_design_conditions", "clause": "contour-modified", "history": True}, \
+            "after %d requests the contour's coordinates are no longer the ones it was created with" % len(requests)
+    return None
+
+
+def shrink_history(vu, coords, requests, dtype, sig):
+    def fails(rqs, co=coords):
+        f = oracle_history(vu, co, rqs, dtype)
+        return f is not None and f[1].get("clause") == sig.get("clause")
+    j = oracle_history(vu, coords, requests, dtype)[0]
+    best = requests[:j + 1]
+    for i in range(j):
+        if fails([requests[i], requests[j]]):
+            best = [requests[i], requests[j]]
+            break
+    co = vlib.shrink_list(coords, lambda ps: len(ps) >= 3 and fails(best, list(ps)), min_len=3)
+    return co, best
 
 
 # ------------------------------------------------------------------ run
@@ -878,6 +925,11 @@ def run(ctx):
         {"kind": "corpus", "coords": [[0, 0], [4, 0], [4, 2], [2, 2], [2, 4], [0, 4]], "swap": True, "steps": [2.0, 3.0], "vertex_stream": True},
     ]
     dc_cases += [
+        # an abscissa exactly at a non-extreme vertex whose two hits (t = 1 + eps, t = -eps) are both lost (known finding)
+        {"kind": "corpus", "coords": [[3.921875, 7.765625], [3.71875, 5.0625], [4.265625, 4.640625], [6.40625, 4.484375]], "swap": False,
+         "steps": [3.921875], "vertex_stream": True, "steps_type": "list"},
+    ]
+    dc_cases += [
         # explicit abscissae in the outermost 0.01 % of the extent; whole-number abscissae in int containers
         {"kind": "corpus", "coords": [[0, 0], [10, 1], [7, 6], [2, 5]], "swap": False, "steps": [0.0002, 9.9998, 0.0005, 5.0], "vertex_stream": False, "steps_type": "list"},
         {"kind": "corpus", "coords": [[0, 0], [10, 1], [7, 6], [2, 5]], "swap": True, "steps": [0.0001, 5.9999], "vertex_stream": False, "steps_type": "tuple"},
@@ -890,6 +942,37 @@ def run(ctx):
     ]
     dc_res = [run_dc(vu, c) for c in dc_cases]
     ix_res = [run_ix(vi, c) for c in ix_cases]
+
+    # ---- histories: several requests on ONE contour object, each judged against the coordinates at creation
+    n_hist = ctx.n(40, 400)
+    hist_found = None
+    hist_sw = {}
+    for h in range(n_hist):
+        base_case = gen_dc_case(ctx, rng, (h % 14) if h % 3 == 0 else 10 ** 9, 14)
+        coords = base_case["coords"]
+        pattern = [False, True, False, True, True, False] if h % 4 == 0 else [rng.random() < 0.5 for _ in range(rng.randrange(2, 6))]
+        requests = []
+        for sw in pattern:
+            st = rng.choice([None, rng.choice([3, 5, 10])]) if rng.random() < 0.5 else gen_steps(rng, coords, sw, False)
+            requests.append({"swap": sw, "steps": st, "steps_type": "list"})
+        hist_sw["".join("T" if q else "F" for q in pattern)] = 1
+        ctx.count(("history", coords, str(requests)), any(pattern))
+        f = oracle_history(vu, coords, requests, base_case.get("coords_dtype", "float"), base_case.get("contour"))
+        if f is not None and hist_found is None:
+            hist_found = (coords, requests, base_case.get("coords_dtype", "float"), f)
+    ctx.notes["histories_on_one_contour_object"] = {"histories": n_hist, "distinct_swap_patterns": len(hist_sw)}
+    if hist_found is not None:
+        coords, requests, dtype, (j, sig, msg) = hist_found
+        try:
+            co, rq = shrink_history(vu, coords, requests, dtype, sig)
+            f2 = oracle_history(vu, co, rq, dtype)
+        except Exception:  # noqa
+            f2 = None
+        if f2 is None:
+            co, rq, f2 = coords, requests[:j + 1], (j, sig, msg)
+        ctx.violation(f2[1], "calculate_design_conditions, %d requests on one contour object with coordinates %r: %s" % (
+            len(rq), co if len(co) <= 8 else "<%d points>" % len(co), f2[2]),
+            {"function": "calculate_design_conditions", "coords": co, "history": rq, "coords_dtype": dtype})
 
     # ---- property oracle on every case (cheap); also supplies judgeability for the correspondence
     dc_or = [oracle_dc(vu, c, r) for c, r in zip(dc_cases, dc_res)]
